@@ -347,6 +347,54 @@ def run_aligned(k):
     return out
 
 
+SEG_KINDS = ["ev", "jumbo", "mark", "none"]
+
+
+def segment_scripts():
+    """Every sequence of one to three flush-separated segments in which each
+    segment holds operations of one kind only (events, jumbos, marks, nothing),
+    ended by a flush or by the free alone."""
+    import itertools
+    out = []
+    for n in (1, 2, 3):
+        for kinds in itertools.product(SEG_KINDS, repeat=n):
+            # the statement speaks of a thread that "has flushed and been freed":
+            # what is emitted after the last flush is out of its scope
+            out.append((kinds, True))
+    return out
+
+
+def run_segments(k):
+    chk, drv = _CTX["chk"], _CTX["drv"]
+    kinds, last_flush = segment_scripts()[k]
+    rng = chk.rng(k, "segments")
+    sh = Shadow()
+    ops = []
+    for j, kind in enumerate(kinds):
+        for _ in range(rng.randint(1, 4) if kind != "none" else 0):
+            if kind == "ev":
+                ops.append(op_event(rng, sh))
+            elif kind == "jumbo":
+                ops.append(op_jumbo(rng, sh, rng.choice([0, 1, 5, 100, 3000])))
+            else:
+                ops.append(op_mark(rng, sh))
+        if j < len(kinds) - 1 or last_flush:
+            ops.append("flush"); sh.flush()
+    script = make_script([(1000 + k % 50, ops)])
+    if not last_flush:
+        # make_script always flushes before free: drop that one
+        lines = script.rstrip("\n").split("\n")
+        idx = max(i for i, l in enumerate(lines) if l == "flush")
+        del lines[idx]
+        script = "\n".join(lines) + "\n"
+    info = {"case": k, "kind": "segments", "script": script, "tmpdir": k % 3 == 0, "autoflush_expected": None, "nostdin": False}
+    out = run_case(300000 + k, info=info)
+    out["i"] = k
+    out["seg"] = "%s%s" % ("|".join(kinds), "" if last_flush else " (no last flush)")
+    out["seg_script"] = script if out["viol"] else None
+    return out
+
+
 def run_multiproc(k):
     """Several processes (as MPI ranks on one or more nodes do) write into the
     same trace directory at the same time: same pid on different looms, or
@@ -471,6 +519,19 @@ def main(argv):
                 key, what, obsv = out["viol"]
                 chk.report(key, what, {"multiproc": out["i"], "layout": out["layout"], "observation": obsv})
     if not chk.replay:
+        allseg = list(range(len(segment_scripts())))
+        for out in core.pmap(run_segments, allseg):
+            if out["inconclusive"]:
+                chk.note_inconclusive(out["inconclusive"]); continue
+            evaluated += 1
+            kinds[out["kind"]] = kinds.get(out["kind"], 0) + 1
+            for k in tot:
+                tot[k] += out[k]
+            feats |= out["feat"]
+            if out["viol"]:
+                key, what, obsv = out["viol"]
+                chk.report(key + ":segments", "%s [segments: %s]" % (what, out["seg"]),
+                           {"segments": out["i"], "script_head": out["seg_script"][:2000], "observation": obsv})
         for out in core.pmap(run_aligned, list(range(10 if chk.tier == "quick" else 200))):
             if out["inconclusive"]:
                 chk.note_inconclusive(out["inconclusive"]); continue
@@ -494,7 +555,8 @@ def main(argv):
         "distinct_nontrivial": len(feats) + len(deltas_seen),
         "rule": "op scripts (boundary sweep / op soup / dense autoflush / multi-thread / short-write / EINTR / no stdin; 2-3 "
                 "processes writing into one trace directory at once with equal pids on different looms or equal tids in "
-                "different processes; streams padded to an exact multiple of 512 B .. 1 MiB) run on the "
+                "different processes; every sequence of 1-3 flush-separated segments of one operation kind each (events, jumbos, "
+                "marks, nothing); streams padded to an exact multiple of 512 B .. 1 MiB) run on the "
                 "ASan+UBSan libovni; a case counts when the driver finished and every stream was decoded and compared "
                 "with the emit log. distinct_nontrivial = distinct (normal|jumbo, payload size) classes seen in decoded "
                 "streams + flush-marker class + distinct boundary distances delta (MAX - fill level) generated",
